@@ -138,7 +138,7 @@ impl J {
                             // equal-comparing but distinguishable numbers (0 / 0.0 / -0.0, 1 / 1.0)
                             // are where ordering and equality code paths can be told apart
                             if r.chance(1, 5) {
-                                r.pick(&[J::Int(0), J::Float(0.0), J::Float(-0.0), J::Float(1.0), J::Int(1)]).clone()
+                                r.pick(&[J::Int(0), J::Float(0.0), J::Float(-0.0), J::Float(1.0), J::Int(1), J::Float(1e308), J::Float(1e308), J::Float(-1e308)]).clone()
                             } else {
                                 J::Int(r.range(-3, 12))
                             }
@@ -697,7 +697,7 @@ impl<'a> ExprGen<'a> {
                 } else {
                     field(ks[self.r.below(ks.len())])
                 };
-                match self.r.below(14) {
+                match self.r.below(15) {
                     0 => format!("[*].{}", k),
                     1 => format!("sort_by(@, &{})", w(self, &k)),
                     2 => format!("max_by(@, &{})", w(self, &k)),
@@ -711,6 +711,19 @@ impl<'a> ExprGen<'a> {
                     10 => format!("[*].{{p: {}, q: {}}}", k, w(self, &k2)),
                     11 => format!("sort_by(@, &{})[*].{}", k, k2),
                     12 => "length(@)".into(),
+                    13 if self.r.chance(1, 2) => {
+                        // expression references as ELEMENTS of results, taken out again and used
+                        (*self.r.pick(&[
+                            "type(map(&(&k), @)[0])",
+                            "sort_by(@, map(&(&k), @)[0])[*].k",
+                            "reverse([&k, &id])[0]",
+                            "values({a: &k, b: `1`})",
+                            "to_array(&k)[0]",
+                            "not_null(`null`, &k)",
+                            "max_by(@, reverse([&id, &k])[1])",
+                        ]))
+                        .into()
+                    }
                     _ => format!("reverse(@)[0].{}", k),
                 }
             }
